@@ -14,6 +14,7 @@
 #include "hx.h"
 
 KSI_IMPORT_TLV_TEMPLATE(KSI_AggregationHashChain);
+KSI_IMPORT_TLV_TEMPLATE(KSI_CalendarHashChain);
 static KSI_CTX *ctx;
 #define MAXTOK 4096
 
@@ -121,6 +122,20 @@ int main(void) {
 			if (res != KSI_OK) printf("C parse%d -\n", res);
 			else { res = KSI_HashChain_aggregateCalendar(ctx, links, in, &out); printf("C %d ", res); if (res == KSI_OK) print_hash(out); else printf("-"); printf("\n"); }
 			KSI_DataHash_free(out); KSI_DataHash_free(in); KSI_HashChainLinkList_free(links);
+		} else if (!strcmp(tok[0], "COMPAT")) {
+			/* COMPAT <calChainTlvA> <calChainTlvB> -> K <rc of KSI_CalendarHashChain_verifyCompatibilityTo(a, b)> */
+			KSI_CalendarHashChain *ch[2] = {NULL, NULL}; int k;
+			res = KSI_OK;
+			for (k = 0; k < 2 && res == KSI_OK; k++) {
+				size_t len; unsigned char *b = hx_dec(tok[1 + k], &len); KSI_TLV *tlv = NULL;
+				res = KSI_CalendarHashChain_new(ctx, &ch[k]);
+				if (res == KSI_OK) res = KSI_TLV_parseBlob(ctx, b, len, &tlv);
+				if (res == KSI_OK) res = KSI_TlvTemplate_extract(ctx, ch[k], tlv, KSI_TLV_TEMPLATE(KSI_CalendarHashChain));
+				KSI_TLV_free(tlv); free(b);
+			}
+			if (res != KSI_OK) printf("K parse%d\n", res);
+			else printf("K %d\n", KSI_CalendarHashChain_verifyCompatibilityTo(ch[0], ch[1]));
+			KSI_CalendarHashChain_free(ch[0]); KSI_CalendarHashChain_free(ch[1]);
 		} else if (!strcmp(tok[0], "TIMES")) {
 			unsigned long long pub = strtoull(tok[1], NULL, 10); int len = atoi(tok[2]); unsigned long v;
 			char lr[80];
